@@ -176,6 +176,8 @@ func LoadMMapAlways(f lock.LockedFile) (*segment.Data, io.Closer, error) {
 func LoadMMapNever(f lock.LockedFile) (*segment.Data, io.Closer, error) {
 	data, err := segment.NewDataFile(f.File())
 	if err != nil {
+		// nobody else will, and the file's shared lock must not outlive the failure
+		_ = f.Close()
 		return nil, nil, fmt.Errorf("error creating data from file: %w", err)
 	}
 	return data, closerFunc(f.Close), nil
